@@ -6,6 +6,7 @@ package main
 // C11 — all modifications go through the caching filesystem: the layers stay coherent.
 //   case <id> cache:<seconds>(mem,mem): base = child 0, cache layer = child 1, the union = "."
 import (
+	"io"
 	"bytes"
 	"fmt"
 	"os"
@@ -148,7 +149,8 @@ func c10Case(c *Ctx, id, stack string, items []string) {
 			switch {
 			case f[2] == "Open" || f[2] == "Stat":
 				p = string(unhx(f[3]))
-			case f[2] == "OpenFile" && atoi(f[4]) == 0:
+			case f[2] == "OpenFile" && (atoi(f[4]) == 0 || atoi(f[4]) == 2):
+				// O_RDONLY, and O_RDWR (a union handle): reads serve the copy the rules select
 				p = string(unhx(f[3]))
 			}
 			isOpen = f[2] != "Stat"
@@ -256,6 +258,23 @@ func c10Case(c *Ctx, id, stack string, items []string) {
 					finish(rd, true)
 				} else if t[2] != "-" {
 					fail(c10Sig[rd.kind], "step %d (%s): read error %s", i, it, t[2])
+				}
+			case "HReadAt":
+				// a positional read returns the bytes of the same copy at that offset
+				t := strings.Split(out, ":")
+				off := atoi(f[5])
+				if len(t) == 3 && t[0] == "data" && off >= 0 && !rd.skip {
+					got := []byte{}
+					if t[1] != "-" {
+						got = unhx(t[1])
+					}
+					wantAt := []byte{}
+					if off < len(rd.want) {
+						wantAt = rd.want[off:min(off+atoi(f[4]), len(rd.want))]
+					}
+					if !bytes.Equal(got, wantAt) {
+						fail(c10Sig[rd.kind], "step %d (%s): ReadAt on the handle opened at step %d (%s) returned %s, the rule says %s", i, it, rd.step, rd.kind, short(got), short(wantAt))
+					}
 				}
 			case "HClose":
 				finish(rd, false)
@@ -538,6 +557,7 @@ func runC10(c *Ctx) {
 		return
 	}
 	runOSCacheLayer(c)
+	runC10Subsecond(c)
 	// modification times far outside the usual range (the zero time.Time of filesystems without
 	// timestamps, the 17th and the 31st century): the copy carries the base's time, whatever it is
 	for xi, stack := range cacheStacks {
@@ -562,6 +582,17 @@ func runC10(c *Ctx) {
 				". 3 Open 2f66", ". - HRead 3 100", ". - HClose 3", ". - Stat 2f66",
 				". 4 OpenFile 2f66 0 0", ". - HRead 4 100", ". - HClose 4", "snap 0", "snap 1"}
 			c10Case(c, fmt.Sprintf("xc%d_%d", xi, ci), stack, items)
+		}
+	}
+	// a cached file whose base was rewritten directly, read through a READ-WRITE handle of the cache
+	// (a union handle) by Read and by ReadAt: the cached bytes, as for any other handle
+	for xi, stack := range cacheStacks {
+		for fi, fl := range []int{2, 1026, 0} {
+			items := []string{"0 0 Create 2f66", "0 - HWrite 0 636f6e74656e7421", "0 - HClose 0", fmt.Sprintf("0 - Chtimes 2f66 %d", c10T0),
+				". 1 Open 2f66", ". - HRead 1 100", ". - HClose 1",
+				"0 2 Create 2f66", "0 - HWrite 2 2a494e2042415345", "0 - HClose 2", fmt.Sprintf("0 - Chtimes 2f66 %d", c10T0-1000),
+				fmt.Sprintf(". 3 OpenFile 2f66 %d 0", fl), ". - HReadAt 3 100 0", ". - HReadAt 3 3 5", ". - HRead 3 4", ". - HReadAt 3 2 1", ". - HRead 3 100", ". - HClose 3", "snap 0", "snap 1"}
+			c10Case(c, fmt.Sprintf("xr%d_%d", xi, fi), stack, items)
 		}
 	}
 	// the rules on the smallest inputs: one file, a seeded copy older / equal / newer, base then rewritten
@@ -964,4 +995,42 @@ func runC11(c *Ctx) {
 			c.Sample("case " + stack + ": " + strings.Join(items, " ; "))
 		}
 	}
+}
+
+// modification times that differ by less than a second (oracle only: the item language and the
+// model count whole seconds): an expired copy with a base that is newer by 1 ns .. 999 ms is stale
+func runC10Subsecond(c *Ctx) {
+	n := 0
+	for _, delta := range []time.Duration{time.Nanosecond, time.Millisecond, 500 * time.Millisecond, 999 * time.Millisecond, 1500 * time.Millisecond} {
+		for _, how := range []string{"ReadFile", "OpenFile"} {
+			n++
+			base, layer := afero.NewMemMapFs(), afero.NewMemMapFs()
+			u := afero.NewCacheOnReadFs(base, layer, time.Second)
+			t0 := time.Now().Add(-time.Hour).Truncate(time.Second)
+			afero.WriteFile(base, "/f", []byte("first version"), 0o644)
+			base.Chtimes("/f", t0, t0)
+			if got, err := afero.ReadFile(u, "/f"); err != nil || string(got) != "first version" {
+				c.Oracle("FAIL sub%d first-read:subsecond ReadFile = %q, %v", n, got, err)
+				continue
+			}
+			afero.WriteFile(base, "/f", []byte("second version"), 0o644)
+			base.Chtimes("/f", t0.Add(delta), t0.Add(delta))
+			var got []byte
+			var err error
+			if how == "ReadFile" {
+				got, err = afero.ReadFile(u, "/f")
+			} else {
+				var h afero.File
+				if h, err = u.OpenFile("/f", os.O_RDONLY, 0); err == nil {
+					got, err = io.ReadAll(h)
+					h.Close()
+				}
+			}
+			c.Count("subsecond." + how)
+			if err != nil || string(got) != "second version" {
+				c.Oracle("FAIL sub%d stale-copy-served:subsecond the cached copy is an hour older than the duration and the base is newer by %v: %s through the cache returned %q, %v; the base holds %q", n, delta, how, got, err, "second version")
+			}
+		}
+	}
+	c.Extra["subsecond"] = fmt.Sprintf("%d reads of an expired copy whose base is newer by 1ns..1.5s (oracle only)", n)
 }
